@@ -4,4 +4,20 @@ Done == state \in {"ok", "error", "timeout"}
 \* a case = the datagrams that were queued, in order (the consumed prefix with the
 \* specification's reaction, plus whatever was not consumed)
 Emit == Done => PrintT(<<"CASE", ToJson([il |-> il, seen |-> hist, rest |-> queue, outcome |-> state])>>)
+
+(***************************************************************************)
+(* Pair cases: a representative skipped datagram first (it uses up the     *)
+(* client's one retry), then every datagram exactly one field away from    *)
+(* the genuine response, then the genuine response.  The code takes        *)
+(* different paths once the retry is spent (every "skip" becomes a         *)
+(* terminal error - or must), so each acceptance clause is exercised in    *)
+(* that state as well.                                                     *)
+(***************************************************************************)
+Single(i) == {d \in Datagram : Dist(d, Genuine(i)) = 1}
+SkipReps(i) == {[Genuine(i) EXCEPT !.len = "short"], [Genuine(i) EXCEPT !.origin = "other"]}
+PairInit ==
+  /\ il \in BOOLEAN
+  /\ retries = 0 /\ state = "waiting" /\ last = Genuine(FALSE) /\ hist = << >>
+  /\ queue \in {<<r, d, Genuine(il)>> : r \in SkipReps(il), d \in Single(il)}
+PairSpec == PairInit /\ [][Recv \/ Timeout]_vars
 =============================================================================
